@@ -48,7 +48,7 @@ fn history(cfg: &Cfg, rep: &mut Report, permissioned: bool, h: u64, steps: usize
     let alw = |t: &Address, who: &Address| -> i128 { invoke(e, t, "allowance", args!(e, who.clone(), fwd.clone())).must("allowance") };
     for step in 0..steps {
         if rng.chance(1, 10) {
-            let t = w.ledger() + 1 + rng.below(20) as u32;
+            let t = w.ledger() + if rng.chance(1, 12) { 600_000 } else { 1 + rng.below(20) as u32 };
             w.set_ledger(t);
             rep.op(format!("ledger -> {t}"));
         }
